@@ -1,11 +1,948 @@
+//! C33 — DA-compressed blocks decompress to the originals.
+//!
+//! Per session: one compressor registry and one decompressor registry (two separate
+//! real `Database<CompressionDatabase>`), one real on-chain database holding the
+//! coins / messages / block->tx-id history the decompressor consults. A chain of
+//! structurally generated blocks over *small* address / asset / contract / script /
+//! predicate alphabets (plus fresh values) is compressed in order exactly the way the
+//! compression service does it (`CompressionContext::create_from_block` + `compress`
+//! + `CompressedBlocks` insert in one storage transaction), serialised with postcard,
+//! deserialised, and decompressed in order with `DecompressionContext`.
+//! Block timestamps step across the retention window (0, 1, R-1, R, R+1, 2R+1), the
+//! evictor is pre-positioned just below the 24-bit key wrap and is repeatedly moved
+//! to just below keys that are still live ("a full key cycle later"), so wrap,
+//! eviction/overwrite of live keys, expiry and re-registration all happen within tens
+//! of blocks.
+//!
+//! Oracle: decompressed header == `PartialBlockHeader` of the original, and each
+//! decompressed transaction == the original with exactly the fields the compression
+//! format declares as not transported (fields execution fills in: coin tx pointers,
+//! contract utxo/roots/pointers, change amounts, variable outputs, receipts root)
+//! reset to default; the transaction ids must be equal as well.
+
+#[path = "../../mon-aggregator/src/txgen.rs"]
+mod txgen;
+
+use fuel_core::database::{
+    Database,
+    database_description::{
+        compression::CompressionDatabase,
+        on_chain::OnChain,
+    },
+};
+use fuel_core_compression::{
+    Config as CompressionConfig,
+    VersionedBlockPayload,
+    VersionedCompressedBlock,
+    compress::compress,
+    decompress::decompress,
+};
+use fuel_core_compression_service::{
+    storage::{
+        CompressedBlocks,
+        EvictorCache,
+        evictor_cache::MetadataKey,
+    },
+    temporal_registry::{
+        CompressionContext,
+        CompressionStorageWrapper,
+        DecompressionContext,
+    },
+};
+use fuel_core_storage::{
+    StorageAsMut,
+    tables::{
+        Coins,
+        FuelBlocks,
+        Messages,
+    },
+    transactional::{
+        AtomicView,
+        WriteTransaction,
+    },
+};
+use fuel_core_types::{
+    blockchain::{
+        block::Block,
+        header::{
+            ApplicationHeader,
+            ConsensusHeader,
+            PartialBlockHeader,
+        },
+        primitives::Empty,
+    },
+    entities::{
+        coins::coin::{
+            CompressedCoin,
+            CompressedCoinV1,
+        },
+        relayer::message::{
+            Message,
+            MessageV1,
+        },
+    },
+    fuel_compression::RegistryKey,
+    fuel_tx::{
+        Input,
+        Output,
+        Transaction,
+        TxPointer,
+        UniqueIdentifier,
+        UtxoId,
+        field::{
+            InputContract as _,
+            Inputs,
+            OutputContract as _,
+            Outputs,
+            Policies as _,
+            ReceiptsRoot,
+            Witnesses,
+        },
+    },
+    fuel_types::ChainId,
+    tai64::Tai64,
+};
+use futures::FutureExt;
+use rand::{
+    Rng,
+    rngs::StdRng,
+};
+use serde_json::json;
+use std::{
+    collections::HashMap,
+    time::Duration,
+};
+use txgen::*;
 use vcommon::*;
+
+type CDb = Database<CompressionDatabase>;
+type ODb = Database<OnChain>;
 
 fn main() {
     let args = Args::parse();
     install_quiet_panic_hook();
     let report = Report::new(&args.property);
     match args.property.as_str() {
-        other => report.inconclusive(format!("property {other} not implemented in this monitor")),
+        "C33" => c33(&args, &report),
+        other => {
+            report.inconclusive(format!(
+                "property {other} not implemented in this monitor"
+            ));
+            report.finish(&args, "exploration", "", false, &[]);
+        }
     }
-    report.finish(&args, "exploration", "", false, &[]);
+}
+
+// --------------------------------------------------------------------------
+// ledger: where coin and message inputs come from
+// --------------------------------------------------------------------------
+
+#[derive(Default)]
+struct Ledger {
+    coins: Vec<CoinRef>,
+    msgs_data: Vec<MsgRef>,
+    msgs_plain: Vec<MsgRef>,
+    /// created since the last on-chain commit
+    new_coins: Vec<CoinRef>,
+    new_msgs: Vec<MsgRef>,
+    height: u32,
+    coin_inputs: u64,
+    same_block_spends: u64,
+    msg_inputs: u64,
+}
+
+impl Source for Ledger {
+    fn coin(&mut self, rng: &mut StdRng, _a: &Alphabet) -> Option<CoinRef> {
+        if self.coins.is_empty() {
+            return None;
+        }
+        let i = rng.gen_range(0..self.coins.len());
+        let c = if rng.gen_bool(0.6) {
+            self.coins.swap_remove(i)
+        } else {
+            self.coins[i].clone()
+        };
+        self.coin_inputs += 1;
+        if *c.tx_pointer.block_height() == self.height {
+            self.same_block_spends += 1;
+        }
+        Some(c)
+    }
+
+    fn msg(&mut self, rng: &mut StdRng, a: &Alphabet, with_data: bool) -> Option<MsgRef> {
+        self.msg_inputs += 1;
+        let list = if with_data {
+            &mut self.msgs_data
+        } else {
+            &mut self.msgs_plain
+        };
+        if !list.is_empty() && rng.gen_bool(0.5) {
+            let i = rng.gen_range(0..list.len());
+            return Some(list[i].clone());
+        }
+        // a new message arrives from the DA layer
+        let m = FreeSource.msg(rng, a, with_data)?;
+        list.push(m.clone());
+        if list.len() > 12 {
+            list.remove(0);
+        }
+        self.new_msgs.push(m.clone());
+        Some(m)
+    }
+}
+
+// --------------------------------------------------------------------------
+// the reference: which fields the format does not transport
+// --------------------------------------------------------------------------
+
+fn norm_inputs(inputs: &mut [Input]) {
+    for i in inputs {
+        match i {
+            Input::CoinSigned(c) => c.tx_pointer = Default::default(),
+            Input::CoinPredicate(c) => c.tx_pointer = Default::default(),
+            Input::Contract(c) => {
+                c.utxo_id = Default::default();
+                c.balance_root = Default::default();
+                c.state_root = Default::default();
+                c.tx_pointer = Default::default();
+            }
+            _ => {}
+        }
+    }
+}
+
+fn norm_outputs(outputs: &mut [Output]) {
+    for o in outputs {
+        match o {
+            Output::Contract(c) => {
+                c.balance_root = Default::default();
+                c.state_root = Default::default();
+            }
+            Output::Change { amount, .. } => *amount = 0,
+            Output::Variable {
+                to,
+                amount,
+                asset_id,
+            } => {
+                *to = Default::default();
+                *amount = 0;
+                *asset_id = Default::default();
+            }
+            _ => {}
+        }
+    }
+}
+
+/// The transaction as DA compression promises to reproduce it.
+fn normalize(tx: &Transaction) -> Transaction {
+    let mut t = tx.clone();
+    match &mut t {
+        Transaction::Script(s) => {
+            *s.receipts_root_mut() = Default::default();
+            norm_inputs(s.inputs_mut());
+            norm_outputs(s.outputs_mut());
+        }
+        Transaction::Create(s) => {
+            norm_inputs(s.inputs_mut());
+            norm_outputs(s.outputs_mut());
+        }
+        Transaction::Upgrade(s) => {
+            norm_inputs(s.inputs_mut());
+            norm_outputs(s.outputs_mut());
+        }
+        Transaction::Upload(s) => {
+            norm_inputs(s.inputs_mut());
+            norm_outputs(s.outputs_mut());
+        }
+        Transaction::Blob(s) => {
+            norm_inputs(s.inputs_mut());
+            norm_outputs(s.outputs_mut());
+        }
+        Transaction::Mint(m) => {
+            let ic = m.input_contract_mut();
+            ic.utxo_id = Default::default();
+            ic.balance_root = Default::default();
+            ic.state_root = Default::default();
+            ic.tx_pointer = Default::default();
+            let oc = m.output_contract_mut();
+            oc.balance_root = Default::default();
+            oc.state_root = Default::default();
+        }
+    }
+    t
+}
+
+fn trunc(s: String) -> String {
+    if s.chars().count() > 600 {
+        let t: String = s.chars().take(600).collect();
+        format!("{t}…")
+    } else {
+        s
+    }
+}
+
+/// stable location of the first difference between two transactions
+fn tx_diff(x: &Transaction, y: &Transaction) -> (String, String) {
+    let kind = tx_kind_name(x);
+    if kind != tx_kind_name(y) {
+        return (
+            format!("tx={kind} part=kind"),
+            format!("got {}", tx_kind_name(y)),
+        );
+    }
+    macro_rules! cmp {
+        ($a:expr, $b:expr) => {{
+            if $a.policies() != $b.policies() {
+                return (
+                    format!("tx={kind} part=policies"),
+                    format!("expected {:?} got {:?}", $a.policies(), $b.policies()),
+                );
+            }
+            if $a.inputs().len() != $b.inputs().len() {
+                return (format!("tx={kind} part=inputs.len"), String::new());
+            }
+            for (i, j) in $a.inputs().iter().zip($b.inputs().iter()) {
+                if i != j {
+                    return (
+                        format!("tx={kind} part=input variant={}", input_variant_name(i)),
+                        trunc(format!("expected {i:?} got {j:?}")),
+                    );
+                }
+            }
+            if $a.outputs().len() != $b.outputs().len() {
+                return (format!("tx={kind} part=outputs.len"), String::new());
+            }
+            for (i, j) in $a.outputs().iter().zip($b.outputs().iter()) {
+                if i != j {
+                    return (
+                        format!(
+                            "tx={kind} part=output variant={}",
+                            output_variant_name(i)
+                        ),
+                        trunc(format!("expected {i:?} got {j:?}")),
+                    );
+                }
+            }
+            if $a.witnesses() != $b.witnesses() {
+                return (format!("tx={kind} part=witnesses"), String::new());
+            }
+        }};
+    }
+    match (x, y) {
+        (Transaction::Script(a), Transaction::Script(b)) => cmp!(a, b),
+        (Transaction::Create(a), Transaction::Create(b)) => cmp!(a, b),
+        (Transaction::Upgrade(a), Transaction::Upgrade(b)) => cmp!(a, b),
+        (Transaction::Upload(a), Transaction::Upload(b)) => cmp!(a, b),
+        (Transaction::Blob(a), Transaction::Blob(b)) => cmp!(a, b),
+        _ => {}
+    }
+    (
+        format!("tx={kind} part=body"),
+        trunc(format!("expected {x:?} got {y:?}")),
+    )
+}
+
+// --------------------------------------------------------------------------
+// driving the real code
+// --------------------------------------------------------------------------
+
+fn compress_one(
+    db: &mut CDb,
+    block: &Block,
+    cfg: &CompressionConfig,
+    chain_id: ChainId,
+    evictor_moves: &[(MetadataKey, RegistryKey)],
+) -> Result<VersionedCompressedBlock, String> {
+    // same sequence as `fuel_core_compression_service::service::compress_block`
+    let mut storage_tx = db.write_transaction();
+    for (mk, key) in evictor_moves {
+        storage_tx
+            .storage_as_mut::<EvictorCache>()
+            .insert(mk, key)
+            .map_err(|e| format!("harness: evictor write: {e}"))?;
+    }
+    let ctx = CompressionContext::create_from_block(&mut storage_tx, block, chain_id)
+        .map_err(|e| format!("create_from_block: {e}"))?;
+    let compressed = compress(cfg, ctx, block)
+        .now_or_never()
+        .ok_or_else(|| "compress future did not resolve".to_string())?
+        .map_err(|e| format!("{e:#}"))?;
+    storage_tx
+        .storage_as_mut::<CompressedBlocks>()
+        .insert(block.header().height(), &compressed)
+        .map_err(|e| format!("harness: CompressedBlocks insert: {e}"))?;
+    storage_tx
+        .commit()
+        .map(|_| ())
+        .map_err(|e| format!("harness: commit: {e}"))?;
+    Ok(compressed)
+}
+
+fn decompress_one(
+    db: &mut CDb,
+    onchain: &ODb,
+    compressed: VersionedCompressedBlock,
+    cfg: CompressionConfig,
+) -> Result<fuel_core_types::blockchain::block::PartialFuelBlock, String> {
+    let height = *compressed.height();
+    let view = onchain
+        .latest_view()
+        .map_err(|e| format!("harness: latest_view: {e}"))?;
+    let mut storage_tx = db.write_transaction();
+    let ctx = DecompressionContext {
+        compression_storage: CompressionStorageWrapper {
+            storage_tx: &mut storage_tx,
+        },
+        onchain_db: view,
+    };
+    let out = decompress(cfg, ctx, compressed.clone())
+        .now_or_never()
+        .ok_or_else(|| "decompress future did not resolve".to_string())?
+        .map_err(|e| format!("{e:#}"))?;
+    // persist the registry changes; the height keeps the database's commits linked
+    storage_tx
+        .storage_as_mut::<CompressedBlocks>()
+        .insert(&height, &compressed)
+        .map_err(|e| format!("harness: CompressedBlocks insert: {e}"))?;
+    storage_tx
+        .commit()
+        .map(|_| ())
+        .map_err(|e| format!("harness: commit: {e}"))?;
+    Ok(out)
+}
+
+fn commit_onchain(
+    onchain: &mut ODb,
+    ledger: &mut Ledger,
+    block: &Block,
+    chain_id: &ChainId,
+) -> Result<(), String> {
+    let mut tx = onchain.write_transaction();
+    for c in ledger.new_coins.drain(..) {
+        let coin = CompressedCoin::V1(CompressedCoinV1 {
+            owner: c.owner,
+            amount: c.amount,
+            asset_id: c.asset_id,
+            tx_pointer: c.tx_pointer,
+        });
+        tx.storage_as_mut::<Coins>()
+            .insert(&c.utxo_id, &coin)
+            .map_err(|e| format!("{e}"))?;
+    }
+    for m in ledger.new_msgs.drain(..) {
+        let msg = Message::V1(MessageV1 {
+            sender: m.sender,
+            recipient: m.recipient,
+            nonce: m.nonce,
+            amount: m.amount,
+            data: m.data.clone(),
+            da_height: Default::default(),
+        });
+        tx.storage_as_mut::<Messages>()
+            .insert(&m.nonce, &msg)
+            .map_err(|e| format!("{e}"))?;
+    }
+    tx.storage_as_mut::<FuelBlocks>()
+        .insert(block.header().height(), &block.compress(chain_id))
+        .map_err(|e| format!("{e}"))?;
+    tx.commit().map(|_| ()).map_err(|e| format!("{e}"))
+}
+
+// --------------------------------------------------------------------------
+// evidence bookkeeping on the registrations the compressor announces
+// --------------------------------------------------------------------------
+
+const KEYSPACES: [(&str, MetadataKey); 5] = [
+    ("address", MetadataKey::Address),
+    ("asset_id", MetadataKey::AssetId),
+    ("contract_id", MetadataKey::ContractId),
+    ("script_code", MetadataKey::ScriptCode),
+    ("predicate_code", MetadataKey::PredicateCode),
+];
+
+/// number of writable keys (0 ..= 2^24 - 2)
+const WRITABLE: u32 = (1 << 24) - 1;
+
+#[derive(Default)]
+struct KeyspaceView {
+    /// key -> hash of value currently registered under it
+    live: HashMap<u32, u64>,
+    /// value hash -> key it was last registered under
+    by_value: HashMap<u64, u32>,
+    last_key: Option<u32>,
+}
+
+fn note_registrations(
+    report: &Report,
+    views: &mut [KeyspaceView; 5],
+    c: &VersionedCompressedBlock,
+) -> usize {
+    let r = c.registrations();
+    let lists: [Vec<(u32, u64)>; 5] = [
+        r.address.iter().map(|(k, v)| (k.as_u32(), hash64(v))).collect(),
+        r.asset_id.iter().map(|(k, v)| (k.as_u32(), hash64(v))).collect(),
+        r.contract_id.iter().map(|(k, v)| (k.as_u32(), hash64(v))).collect(),
+        r.script_code.iter().map(|(k, v)| (k.as_u32(), hash64(v))).collect(),
+        r.predicate_code.iter().map(|(k, v)| (k.as_u32(), hash64(v))).collect(),
+    ];
+    let mut total = 0;
+    for (ks, list) in lists.iter().enumerate() {
+        let mut sorted = list.clone();
+        sorted.sort();
+        let view = &mut views[ks];
+        for (k, vh) in sorted {
+            total += 1;
+            report.count(&format!("c33.registrations.{}", KEYSPACES[ks].0));
+            if let Some(old) = view.live.get(&k) {
+                if *old != vh {
+                    report.count("c33.overwrites_of_live_key");
+                }
+            }
+            if let Some(prev_key) = view.by_value.get(&vh) {
+                if *prev_key != k {
+                    report.count("c33.reregistrations_of_known_value");
+                }
+            }
+            if let Some(last) = view.last_key {
+                if k < last && last > WRITABLE - 64 && k < 64 {
+                    report.count("c33.key_wraps");
+                }
+            }
+            view.last_key = Some(k);
+            view.live.insert(k, vh);
+            view.by_value.insert(vh, k);
+        }
+    }
+    total
+}
+
+// --------------------------------------------------------------------------
+
+#[derive(Clone, Debug)]
+struct SessionCfg {
+    retention: u64,
+    n_blocks: usize,
+    alphabet: usize,
+    fresh_pct: u32,
+}
+
+fn key_minus(k: u32, n: u32) -> RegistryKey {
+    let v = (k + WRITABLE - (n % WRITABLE)) % WRITABLE;
+    RegistryKey::try_from(v).expect("below 2^24")
+}
+
+#[allow(clippy::too_many_arguments)]
+fn run_session(
+    report: &Report,
+    seed: u64,
+    shard: usize,
+    session: u64,
+    selftest: u32,
+) {
+    let mut rng = rng_for(seed, &[tag("c33"), session]);
+    let pfx = if selftest > 0 { "selftest:" } else { "" };
+    let scfg = SessionCfg {
+        retention: *pick(&mut rng, &[2u64, 5, 30, 600]),
+        n_blocks: rng.gen_range(30..60),
+        alphabet: rng.gen_range(3..7),
+        fresh_pct: *pick(&mut rng, &[0u32, 5, 15]),
+    };
+    let cfg = CompressionConfig {
+        temporal_registry_retention: Duration::from_secs(scfg.retention),
+    };
+    // selftest 3: the decompressor is configured with a different retention
+    let dcfg = if selftest == 3 {
+        CompressionConfig {
+            temporal_registry_retention: Duration::from_secs(0),
+        }
+    } else {
+        cfg
+    };
+    let alpha = Alphabet::new(&mut rng, scfg.alphabet, scfg.fresh_pct);
+    let chain_id = ChainId::new(rng.gen_range(0..3));
+    let mut comp_db = CDb::in_memory();
+    let mut decomp_db = CDb::in_memory();
+    let mut onchain = ODb::in_memory();
+    let mut ledger = Ledger::default();
+    let mut views: [KeyspaceView; 5] = Default::default();
+    let mut height: u32 = *pick(&mut rng, &[1u32, 2, 77, 0x00ff_fff0]);
+    let mut time: u64 = Tai64::from_unix(1_700_000_000).0 + rng.gen_range(0..1000);
+    let mut trace: Vec<String> = Vec::new();
+
+    let replay = |block_i: usize| json!({"seed": seed, "shard_seed": seed, "shard": shard, "session": session, "block": block_i});
+
+    for bi in 0..scfg.n_blocks {
+        // ---------------- time
+        let r = scfg.retention;
+        let (step_name, step) = match rng.gen_range(0..100) {
+            0..=29 => ("0", 0),
+            30..=54 => ("1", 1),
+            55..=64 => ("R-1", r - 1),
+            65..=76 => ("R", r),
+            77..=86 => ("R+1", r + 1),
+            87..=92 => ("2R+1", 2 * r + 1),
+            _ => ("rand", rng.gen_range(0..=r)),
+        };
+        if bi > 0 {
+            time += step;
+            report.count(&format!("c33.time_step.{step_name}"));
+        }
+        // ---------------- block
+        ledger.height = height;
+        let executed_form = rng.gen_bool(0.5);
+        let opts = Opts {
+            executed_form,
+            max_inputs: 4,
+            max_outputs: 4,
+            max_witnesses: 2,
+        };
+        let n_txs = rng.gen_range(1..=4);
+        let mut txs: Vec<Transaction> = Vec::new();
+        for ti in 0..n_txs {
+            let kind = if bi < 2 {
+                0
+            } else {
+                *pick(&mut rng, &[0u8, 0, 0, 1, 2, 3, 4, 5])
+            };
+            let tx = gen_tx(&mut rng, &alpha, &mut ledger, &opts, kind);
+            // outputs of this transaction become spendable (also within this block)
+            let id = tx.id(&chain_id);
+            let outs: Vec<Output> = match &tx {
+                Transaction::Script(t) => t.outputs().clone(),
+                Transaction::Create(t) => t.outputs().clone(),
+                Transaction::Upgrade(t) => t.outputs().clone(),
+                Transaction::Upload(t) => t.outputs().clone(),
+                Transaction::Blob(t) => t.outputs().clone(),
+                Transaction::Mint(_) => vec![],
+            };
+            for (oi, o) in outs.iter().enumerate() {
+                let spendable = match o {
+                    Output::Coin {
+                        to,
+                        amount,
+                        asset_id,
+                    } => Some((*to, *amount, *asset_id)),
+                    Output::Change {
+                        to,
+                        amount,
+                        asset_id,
+                    } if executed_form => Some((*to, *amount, *asset_id)),
+                    _ => None,
+                };
+                if let Some((owner, amount, asset_id)) = spendable {
+                    let c = CoinRef {
+                        utxo_id: UtxoId::new(id, oi as u16),
+                        owner,
+                        amount,
+                        asset_id,
+                        tx_pointer: TxPointer::new(height.into(), ti as u16),
+                    };
+                    ledger.coins.push(c.clone());
+                    ledger.new_coins.push(c);
+                }
+            }
+            if ledger.coins.len() > 40 {
+                let drop = ledger.coins.len() - 40;
+                ledger.coins.drain(0..drop);
+            }
+            txs.push(tx);
+        }
+        txs.push(gen_mint(
+            &mut rng,
+            &alpha,
+            &opts,
+            height.into(),
+            n_txs as u16,
+        ));
+        let header = PartialBlockHeader {
+            application: ApplicationHeader {
+                da_height: word(&mut rng).into(),
+                consensus_parameters_version: idx32(&mut rng),
+                state_transition_bytecode_version: idx32(&mut rng),
+                generated: Empty,
+            },
+            consensus: ConsensusHeader {
+                prev_root: b32(&mut rng).into(),
+                height: height.into(),
+                time: Tai64(time),
+                generated: Empty,
+            },
+        };
+        let block = Block::new(header, txs, &[], b32(&mut rng).into())
+            .expect("few transactions");
+
+        if let Err(e) = commit_onchain(&mut onchain, &mut ledger, &block, &chain_id) {
+            report.inconclusive(format!("harness: on-chain commit failed: {e}"));
+            return;
+        }
+
+        // ---------------- evictor positioning
+        let mut moves: Vec<(MetadataKey, RegistryKey)> = Vec::new();
+        if bi == 0 {
+            for (name, mk) in KEYSPACES {
+                match rng.gen_range(0..4) {
+                    0 => {} // never assigned: fresh evictor
+                    1 | 2 => {
+                        let k = key_minus(WRITABLE - 1, rng.gen_range(0..6));
+                        moves.push((mk, k));
+                        report.count(&format!("c33.evictor_near_wrap.{name}"));
+                    }
+                    _ => {
+                        let k =
+                            RegistryKey::try_from(rng.gen_range(0..WRITABLE)).unwrap();
+                        moves.push((mk, k));
+                    }
+                }
+            }
+        } else if rng.gen_bool(0.3) {
+            // "a full key cycle later": the next keys handed out are live ones
+            let ks = rng.gen_range(0..5);
+            let live: Vec<u32> = views[ks].live.keys().copied().collect();
+            if !live.is_empty() {
+                let mut sorted = live;
+                sorted.sort();
+                let target = *pick(&mut rng, &sorted);
+                moves.push((KEYSPACES[ks].1, key_minus(target, 1 + rng.gen_range(0..3))));
+                report.count("c33.evictor_moved_below_live_key");
+            }
+        }
+
+        // ---------------- compress (real service sequence)
+        let compressed =
+            match catch(|| compress_one(&mut comp_db, &block, &cfg, chain_id, &moves)) {
+                Err(p) => {
+                    report.violation(
+                        format!("{pfx}compress_panic"),
+                        format!("block #{bi} (height {height}): {p}; trace: {}", trace.join(" ")),
+                        replay(bi),
+                    );
+                    return;
+                }
+                Ok(Err(e)) if e.starts_with("harness:") => {
+                    report.inconclusive(format!("session {session} block {bi}: {e}"));
+                    return;
+                }
+                Ok(Err(e)) => {
+                    let short: String = e.chars().take(50).collect();
+                    report.violation(
+                        format!("{pfx}compress_error {short}"),
+                        format!(
+                            "block #{bi} (height {height}, time {time}) of a block sequence in the supported domain could not be compressed: {e}; trace: {}",
+                            trace.join(" ")
+                        ),
+                        replay(bi),
+                    );
+                    return;
+                }
+                Ok(Ok(c)) => c,
+            };
+        let n_reg = note_registrations(report, &mut views, &compressed);
+        report.add("c33.registrations", n_reg as u64);
+        if n_reg == 0 {
+            report.count("c33.blocks_without_new_registrations");
+        }
+        trace.push(format!("h{height}+{step_name}:r{n_reg}"));
+
+        // ---------------- the DA wire
+        let wire = postcard::to_allocvec(&compressed).expect("postcard");
+        report.add("c33.compressed_bytes", wire.len() as u64);
+        let from_wire: VersionedCompressedBlock = match postcard::from_bytes(&wire) {
+            Ok(b) => b,
+            Err(e) => {
+                report.violation(
+                    format!("{pfx}compressed_block_does_not_deserialize"),
+                    format!("block #{bi}: {e}"),
+                    replay(bi),
+                );
+                return;
+            }
+        };
+
+        // selftest 2: the decompressor never sees block 5
+        if selftest == 2 && bi == 5 {
+            // keep the decompressor database linked by height
+            let mut tx = decomp_db.write_transaction();
+            let _ = tx
+                .storage_as_mut::<CompressedBlocks>()
+                .insert(&height.into(), &from_wire);
+            let _ = tx.commit();
+            height += 1;
+            continue;
+        }
+
+        // ---------------- decompress
+        report.eval();
+        let out = match catch(|| decompress_one(&mut decomp_db, &onchain, from_wire, dcfg)) {
+            Err(p) => {
+                report.violation(
+                    format!("{pfx}decompress_panic"),
+                    format!("block #{bi} (height {height}): {p}; trace: {}", trace.join(" ")),
+                    replay(bi),
+                );
+                return;
+            }
+            Ok(Err(e)) if e.starts_with("harness:") => {
+                report.inconclusive(format!("session {session} block {bi}: {e}"));
+                return;
+            }
+            Ok(Err(e)) => {
+                let short: String = e.chars().take(50).collect();
+                report.violation(
+                    format!("{pfx}decompress_error {short}"),
+                    format!(
+                        "block #{bi} (height {height}, time {time}, retention {}s) compressed fine but does not decompress: {e}; trace: {}",
+                        scfg.retention,
+                        trace.join(" ")
+                    ),
+                    replay(bi),
+                );
+                return;
+            }
+            Ok(Ok(o)) => o,
+        };
+        let mut got_txs = out.transactions;
+        if selftest == 1 && bi % 7 == 3 {
+            // corrupt the observation
+            if let Some(Transaction::Script(s)) = got_txs.first_mut() {
+                s.witnesses_mut().push(vec![7u8].into());
+            }
+        }
+
+        // ---------------- oracle
+        let want_header = PartialBlockHeader::from(block.header());
+        if out.header != want_header {
+            report.violation(
+                format!("{pfx}header_mismatch"),
+                format!(
+                    "block #{bi}: expected {want_header:?} got {:?}",
+                    out.header
+                ),
+                replay(bi),
+            );
+            return;
+        }
+        if got_txs.len() != block.transactions().len() {
+            report.violation(
+                format!("{pfx}tx_count_mismatch"),
+                format!(
+                    "block #{bi}: expected {} transactions got {}",
+                    block.transactions().len(),
+                    got_txs.len()
+                ),
+                replay(bi),
+            );
+            return;
+        }
+        for (ti, (orig, got)) in block.transactions().iter().zip(got_txs.iter()).enumerate()
+        {
+            let want = normalize(orig);
+            if &want != got {
+                let (loc, detail) = tx_diff(&want, got);
+                report.violation(
+                    format!("{pfx}decompress_mismatch {loc}"),
+                    format!(
+                        "block #{bi} (height {height}) tx #{ti}: {detail}; retention {}s; trace: {}",
+                        scfg.retention,
+                        trace.join(" ")
+                    ),
+                    replay(bi),
+                );
+                return;
+            }
+            if orig.id(&chain_id) != got.id(&chain_id) {
+                report.violation(
+                    format!("{pfx}decompress_txid_mismatch tx={}", tx_kind_name(orig)),
+                    format!("block #{bi} tx #{ti}"),
+                    replay(bi),
+                );
+                return;
+            }
+            report.count(&format!("c33.tx_ok.{}", tx_kind_name(orig)));
+        }
+        report.count("c33.blocks_ok");
+        if executed_form {
+            report.count("c33.blocks_ok.executed_form");
+        }
+        height += 1;
+    }
+    report.add("c33.coin_inputs", ledger.coin_inputs);
+    report.add("c33.message_inputs", ledger.msg_inputs);
+    report.add("c33.same_block_spends", ledger.same_block_spends);
+    report.count("c33.sessions_completed");
+    // non-trivial: the session saw eviction of a live key or a re-registration
+    report.distinct(&(scfg.retention, scfg.alphabet, trace.clone()));
+    if report.wants_sample() {
+        report.sample(json!({
+            "session": session,
+            "retention_s": scfg.retention,
+            "alphabet": scfg.alphabet,
+            "fresh_pct": scfg.fresh_pct,
+            "trace(height+timestep:registrations)": trace,
+        }));
+    }
+}
+
+fn c33(args: &Args, report: &Report) {
+    let selftest: u32 = args
+        .extra
+        .get("selftest")
+        .and_then(|s| s.parse().ok())
+        .unwrap_or(0);
+    let shards = args.by_tier(16usize, 64);
+    let sessions = args.by_tier(6u64, 40);
+    if let Some(rp) = read_replay(args) {
+        let seed = rp["shard_seed"].as_u64().unwrap_or(0);
+        let session = rp["session"].as_u64().unwrap_or(0);
+        let shard = rp["shard"].as_u64().unwrap_or(0) as usize;
+        run_session(report, seed, shard, session, selftest);
+    } else {
+        let report2 = report.clone();
+        run_shards(report, args, shards, move |shard, seed| {
+            for s in 0..sessions {
+                run_session(&report2, seed, shard, s, selftest);
+            }
+        });
+        if selftest == 0 {
+            report.require("c33.blocks_ok", args.by_tier(2500, 60_000));
+            report.require("c33.blocks_ok.executed_form", 800);
+            report.require("c33.sessions_completed", args.by_tier(80, 2000));
+            report.require("c33.registrations", 5000);
+            for (name, _) in KEYSPACES {
+                report.require(&format!("c33.registrations.{name}"), 300);
+            }
+            report.require("c33.key_wraps", 40);
+            report.require("c33.overwrites_of_live_key", 300);
+            report.require("c33.reregistrations_of_known_value", 500);
+            report.require("c33.evictor_moved_below_live_key", 300);
+            report.require("c33.blocks_without_new_registrations", 50);
+            report.require("c33.time_step.R", 150);
+            report.require("c33.time_step.R+1", 150);
+            report.require("c33.time_step.R-1", 100);
+            report.require("c33.coin_inputs", 2000);
+            report.require("c33.message_inputs", 2000);
+            report.require("c33.same_block_spends", 100);
+            for k in ["Script", "Create", "Mint", "Upgrade", "Upload", "Blob"] {
+                report.require(&format!("c33.tx_ok.{k}"), 150);
+            }
+        }
+    }
+    report.finish(
+        args,
+        "exploration",
+        "a session = one chain of 30-60 structurally generated blocks (1-4 txs + mint, \
+         inputs from a ledger of coins created by earlier outputs incl. same-block spends \
+         and DA messages, values from alphabets of 3-6 addresses/assets/contracts/scripts/ \
+         predicates incl. the default value, 0-15% fresh values), retention 2/5/30/600 s, \
+         time steps {0,1,R-1,R,R+1,2R+1,rand}, evictor pre-positioned below the 24-bit wrap \
+         and moved just below live keys in 30% of the blocks; compressed like the service, \
+         postcard round trip, decompressed with a second real registry database. A case = \
+         one block judged; distinct = distinct session traces (height, time-step class, \
+         number of new registrations per block)",
+        false,
+        &[
+            "blocks are structurally generated (not executed); coins/messages/tx-id history are provided to the decompressor through a real on-chain database filled by the harness",
+            "moving the evictor pointer models the passage of a full 2^24 key cycle; registry, index and timestamp tables are only ever written by fuel-core code",
+            "fields the format declares as skipped are compared after resetting them to default (tx ids are compared in addition)",
+        ],
+    );
 }
